@@ -76,7 +76,7 @@ def _prepare(unit_path, repo):
     """weave the K-unit into a crate; -> (crate_dir, woven)"""
     w = weave.expand(unit_path, repo=repo)
     unit = os.path.basename(unit_path)[:-3]
-    d = os.path.join(WORK, unit)
+    d = os.path.join(WORK + ".%d" % os.getpid(), unit)
     os.makedirs(os.path.join(d, "src"), exist_ok=True)
     open(os.path.join(d, "Cargo.toml"), "w").write(CARGO_TOML % unit)
     os.makedirs(os.path.join(d, ".cargo"), exist_ok=True)
@@ -157,6 +157,15 @@ def run(prop, tier, harnesses, repo=None):
     for up, d in crates.items():
         for t in glob.glob(os.path.join(d, "target-*")):
             shutil.rmtree(t, ignore_errors=True)
+    # keep the last woven crates (sources only) under .work/kani/<unit> for inspection, drop the per-process dir
+    for up, d in crates.items():
+        keep = os.path.join(WORK, os.path.basename(d))
+        shutil.rmtree(keep, ignore_errors=True)
+        try:
+            shutil.copytree(d, keep)
+        except OSError:
+            pass
+    shutil.rmtree(WORK + ".%d" % os.getpid(), ignore_errors=True)
     return res
 
 
